@@ -70,7 +70,6 @@ pub fn outcome_filter_table<S: Src>(s: &mut S) {
 
 /// all board outcomes x every usize count x 3 filters (S5): precedence + automatic outcome setting
 pub fn chain_outcome_precedence<S: Src>(s: &mut S) {
-    let mut ch: BaseMoveChain<CountRepeat> = BaseMoveChain::new(Board::initial());
     let bi = s.below(7);
     // what a board can report: none, the three forced ones, insufficient material, 75, 50
     let bo = match bi {
@@ -84,20 +83,32 @@ pub fn chain_outcome_precedence<S: Src>(s: &mut S) {
     };
     let n = s.usize();
     #[cfg(kani)]
-    unsafe {
-        BOARD_OUTCOME = bo;
-        COUNT = n;
-    }
-    #[cfg(not(kani))]
-    {
-        // natively the stub does not exist: only the concrete initial position can be replayed
-        let _ = (bo, n);
-        unsafe { COUNT = n };
-        if bi != 0 {
-            crate::src::native::note_vacuous();
-            return;
+    let mut ch: BaseMoveChain<CountRepeat> = {
+        unsafe {
+            BOARD_OUTCOME = bo;
+            COUNT = n;
         }
-    }
+        BaseMoveChain::new(Board::initial())
+    };
+    #[cfg(not(kani))]
+    let mut ch: BaseMoveChain<CountRepeat> = {
+        // natively S5 does not exist: a concrete position whose REAL board outcome is `bo` stands in
+        unsafe { COUNT = n };
+        let fen = match bi {
+            0 => "rnbqkbnr/pppppppp/8/8/8/8/PPPPPPPP/RNBQKBNR w KQkq - 0 1",
+            1 => "R5k1/5ppp/8/8/8/8/8/4K3 b - - 0 1",
+            2 => "4k3/8/8/8/8/8/5PPP/r5K1 w - - 0 1",
+            3 => "7k/5Q2/6K1/8/8/8/8/8 b - - 0 1",
+            4 => "4k3/8/8/8/8/8/8/4K3 w - - 0 1",
+            5 => "rnbqkbnr/pppppppp/8/8/8/8/PPPPPPPP/RNBQKBNR w KQkq - 150 90",
+            _ => "rnbqkbnr/pppppppp/8/8/8/8/PPPPPPPP/RNBQKBNR w KQkq - 100 60",
+        };
+        let b = Board::from_fen(fen).unwrap();
+        if b.calc_outcome() != bo {
+            crate::src::native::fail("native stand-in position does not have the intended board outcome");
+        }
+        BaseMoveChain::new(b)
+    };
     let got = ch.calc_outcome();
     let forced_or_mandatory = bi >= 1 && bi <= 5;
     let want = if forced_or_mandatory {
